@@ -273,6 +273,34 @@ fn restored(orig: &Document, d: &Document, what: &str, keep: &Document) -> Resul
     Ok(())
 }
 
+/// decrypt_raw ends with a pass over the streams of Type ObjStm (ObjectStream::new: decompress in place, parse the
+/// members, add them under the numbers still free).  The members the plain document's object streams hold, first
+/// occurrence first -- computed on a copy of the PLAIN document, so that the verdict can say which objects may appear.
+fn objstm_members(doc0: &Document) -> Vec<(ObjectId, Object)> {
+    let mut out: Vec<(ObjectId, Object)> = vec![];
+    for (_, o) in &doc0.objects {
+        let Ok(s) = o.as_stream() else { continue };
+        if !s.dict.has_type(b"ObjStm") {
+            continue;
+        }
+        let mut c = s.clone();
+        if let Ok(os) = lopdf::ObjectStream::new(&mut c) {
+            for (id, m) in os.objects {
+                if !out.iter().any(|(i, _)| *i == id) {
+                    out.push((id, m));
+                }
+            }
+        }
+    }
+    out
+}
+
+/// a stream of Type ObjStm with a Filter entry: ObjectStream::new decompresses it in place (the model has no filter
+/// model: such a case is answered "unmodelled" by both sides)
+fn filtered_objstm(d: &Document) -> bool {
+    d.objects.values().any(|o| o.as_stream().map(|s| s.dict.has_type(b"ObjStm") && s.dict.has(b"Filter")).unwrap_or(false))
+}
+
 fn direct_verdict(doc0: &Document, v: &Ver, pws: &[Vec<u8>], alldiff: bool) -> String {
     let st = match make_state(v, doc0) {
         Ok(s) => s,
@@ -326,8 +354,25 @@ fn direct_verdict(doc0: &Document, v: &Ver, pws: &[Vec<u8>], alldiff: bool) -> S
         if let Err(m) = restored(doc0, &d, &format!("in memory, {} password", who), doc0) {
             return format!("FAIL {}", m);
         }
-        if d.objects.len() != doc0.objects.len() {
-            return format!("FAIL in memory, {} password: encryption dictionary object not removed", who);
+        // besides the objects of the plain document only members of its object streams may be there, each under a
+        // number that was free (the number of the encryption dictionary is not: add_object took it), with the
+        // value the object stream gives it; every such member must be there
+        let enc_id = enc.trailer.get(b"Encrypt").and_then(Object::as_reference).ok();
+        let mut expect = doc0.objects.len();
+        for (id, m) in objstm_members(doc0) {
+            if doc0.objects.contains_key(&id) || Some(id) == enc_id {
+                continue;
+            }
+            expect += 1;
+            match d.objects.get(&id) {
+                Some(o) if obj_to_sx(o).print() == obj_to_sx(&m).print() => {}
+                Some(_) => return format!("FAIL in memory, {} password: object stream member {:?} differs", who, id),
+                None => return format!("FAIL in memory, {} password: object stream member {:?} not added", who, id),
+            }
+        }
+        if d.objects.len() != expect {
+            return format!("FAIL in memory, {} password: {} objects, expected {} (encryption dictionary object not removed?)",
+                           who, d.objects.len(), expect);
         }
         // after save + load
         let mut bytes = vec![];
@@ -400,12 +445,14 @@ fn main() {
         let flag = |name: &str| a.get(4).map(|f| f.args().iter().any(|y| y.is_id(name)) || f.tag() == Some(name)).unwrap_or(false);
         let alldiff = flag("alldiff");
         let mut dec = vec![];
+        let unmodelled = filtered_objstm(&encd);
         for pw in &pws {
             let mut d = encd.clone();
             let r = catch_unwind(AssertUnwindSafe(|| decrypt_with(&mut d, pw)));
             dec.push(match r {
                 Err(_) => Sx::L(vec![Sx::id("panic")]),
                 Ok(Err(e)) => sx_err(&e),
+                Ok(Ok(())) if unmodelled => Sx::L(vec![Sx::id("unmodelled")]),
                 Ok(Ok(())) => {
                     let key = d.encryption_state.as_ref().map(|s| s.file_encryption_key().to_vec()).unwrap_or_default();
                     Sx::tagged("ok", vec![doc_to_sx(&d), Sx::bytes(&key)])
